@@ -204,6 +204,9 @@ pub struct Host {
     pub prop: String,
     pub allow_partial: bool,
     pub allow_peer_drop: bool,
+    /// the scenario itself keeps wakers of a task beyond that task's life (then the task's
+    /// shared state, including its waitable set, legitimately outlives the task)
+    pub wakers_outlive_tasks: bool,
 }
 
 thread_local! {
@@ -243,6 +246,7 @@ impl Host {
             prop: String::new(),
             allow_partial: true,
             allow_peer_drop: true,
+            wakers_outlive_tasks: false,
         }
     }
 
@@ -1225,6 +1229,11 @@ impl Host {
                     }
                     if self.allow_peer_drop {
                         v.push(Progress::StreamReaderDrop { si });
+                        if n - prog >= 1 {
+                            // the host reader takes one more item and then hangs up before the
+                            // writer is told: DROPPED(k) with k > 0
+                            v.push(Progress::StreamTakeThenDrop { si, k: 1 });
+                        }
                     }
                 }
             }
@@ -1236,6 +1245,10 @@ impl Host {
                         v.push(Progress::StreamWriterDrop { si });
                     } else if room > 0 {
                         v.push(Progress::StreamGive { si, k: room.min(q) });
+                        if q <= room && self.allow_peer_drop {
+                            // the host writer sends its last items and hangs up at once
+                            v.push(Progress::StreamGiveThenDrop { si, k: q });
+                        }
                         if room.min(q) > 1 && self.allow_partial {
                             v.push(Progress::StreamGive { si, k: 1 });
                         }
@@ -1293,6 +1306,25 @@ impl Host {
                 self.streams[si].pw = None;
                 let _ = n;
                 self.entry(h).unwrap().pending = Some(pack(COMPLETED, prog + k));
+            }
+            Progress::StreamTakeThenDrop { si, k } => {
+                let (ptr, _n, prog) = self.streams[si].pw.take().unwrap();
+                let elem = self.streams[si].elem;
+                let items = self.read_items(elem, ptr + prog * elem.size(), k, "C19", "pending stream.write completion");
+                self.streams[si].taken.extend(items);
+                self.streams[si].r = Owner::Dropped;
+                let Owner::Guest(h) = self.streams[si].w else { unreachable!() };
+                self.entry(h).unwrap().pending = Some(pack(DROPPED, prog + k));
+            }
+            Progress::StreamGiveThenDrop { si, k } => {
+                let (ptr, _cap, prog) = self.streams[si].pr.take().unwrap();
+                let elem = self.streams[si].elem;
+                let items: Vec<Item> = self.streams[si].host_q.drain(..k).collect();
+                self.write_items(elem, ptr + prog * elem.size(), &items, "C19", "pending stream.read completion");
+                self.streams[si].given.extend(items);
+                self.streams[si].w = Owner::Dropped;
+                let Owner::Guest(h) = self.streams[si].r else { unreachable!() };
+                self.entry(h).unwrap().pending = Some(pack(DROPPED, prog + k));
             }
             Progress::StreamReaderDrop { si } => {
                 let (_, _, prog) = self.streams[si].pw.take().unwrap();
@@ -1421,6 +1453,8 @@ impl Host {
 pub enum Progress {
     StreamTake { si: usize, k: usize },
     StreamReaderDrop { si: usize },
+    StreamTakeThenDrop { si: usize, k: usize },
+    StreamGiveThenDrop { si: usize, k: usize },
     StreamGive { si: usize, k: usize },
     StreamWriterDrop { si: usize },
     FutureTake { fi: usize },
